@@ -457,7 +457,10 @@ Qed.
 
 (* the step seen from one system id *)
 Definition step_k (cur : option (list sblock)) (b : sblock) : option (list sblock) * option (shdr * list N) :=
-  let bl := match cur with None => split_blocks (sb_data b) (sb_hdr b) false | Some old => old ++ [b] end in
+  let bl := match cur with
+            | None => split_blocks (sb_data b) (sb_hdr b) false
+            | Some old => if starts_message b then split_blocks (sb_data b) (sb_hdr b) false else old ++ [b]
+            end in
   match msg_header bl with
   | Some h => if s_e h then (None, Some (h, msg_data bl)) else (Some bl, None)
   | None => (Some bl, None)
@@ -470,7 +473,10 @@ Lemma add_block_local s b k :
   else rs_lookup k s' = rs_lookup k s.
 Proof.
   unfold add_block, step_k. set (kb := s_system (sb_hdr b)).
-  set (bl := match rs_lookup kb s with None => split_blocks (sb_data b) (sb_hdr b) false | Some old => old ++ [b] end).
+  set (bl := match rs_lookup kb s with
+             | None => split_blocks (sb_data b) (sb_hdr b) false
+             | Some old => if starts_message b then split_blocks (sb_data b) (sb_hdr b) false else old ++ [b]
+             end).
   destruct (Z.eqb_spec kb k) as [<-|Hne].
   - fold bl. destruct (msg_header bl) as [h|]; [destruct (s_e h)|]; cbn [fst snd]; split; try reflexivity.
     + apply lookup_del_same.
@@ -531,16 +537,18 @@ Qed.
 
 Lemma feed_k_tail d : forall rest acc, rest <> [] ->
   (forall i b, nth_error rest i = Some b -> s_e (sb_hdr b) = Nat.eqb (S i) (length rest)) ->
+  Forall (fun b => starts_message b = false) rest ->
   feed_k (Some acc) rest =
   (None, repeat None (length rest - 1) ++ [Some (sb_hdr (last rest d), msg_data (acc ++ rest))]).
 Proof.
-  induction rest as [|b r IH]; intros acc Hne He; [congruence|].
-  cbn [feed_k]. unfold step_k. rewrite msg_header_snoc.
+  induction rest as [|b r IH]; intros acc Hne He Hst; [congruence|].
+  inversion Hst as [|? ? Hb0 Hr0]; subst.
+  cbn [feed_k]. unfold step_k. rewrite Hb0. rewrite msg_header_snoc.
   pose proof (He 0%nat b eq_refl) as Hb. cbn [length] in Hb.
   destruct r as [|b2 r].
   - cbn in Hb. rewrite Hb. cbn [feed_k length Nat.sub repeat app last]. reflexivity.
   - cbn in Hb. rewrite Hb.
-    rewrite (IH (acc ++ [b])); [|discriminate|intros i x Hx; rewrite (He (S i) x Hx); reflexivity].
+    rewrite (IH (acc ++ [b])); [|discriminate|intros i x Hx; rewrite (He (S i) x Hx); reflexivity|exact Hr0].
     cbn [length Nat.sub]. rewrite Nat.sub_0_r. cbn [repeat app]. rewrite <- app_assoc. reflexivity.
 Qed.
 
@@ -558,7 +566,7 @@ Proof.
   - cbn [length Z.of_nat Z.eqb Pos.eqb feed_k Nat.sub repeat app]. unfold msg_data. cbn [map List.concat sb_data].
     cbn [map List.concat] in Hcat. rewrite app_nil_r in *. rewrite Hcat. reflexivity.
   - assert (E : (1 =? Z.of_nat (length (b1 :: b2 :: r)))%Z = false) by (cbn [length]; lia). rewrite E.
-    rewrite (feed_k_tail b1 (b2 :: r)); [|discriminate|intros i x Hx].
+    rewrite (feed_k_tail b1 (b2 :: r)); [|discriminate|intros i x Hx|].
     + assert (A : sb_hdr (last (b2 :: r) b1) = with_block h (Z.of_nat (length (b1 :: b2 :: r))) true).
       { assert (Hl : nth_error (b1 :: b2 :: r) (length (b2 :: r)) = Some (last (b2 :: r) b1)).
         { clear. revert b2. induction r as [|x r IH]; intro b2; [reflexivity|].
@@ -570,6 +578,21 @@ Proof.
       rewrite A, B. cbn [length Nat.sub]. rewrite Nat.sub_0_r. reflexivity.
     + pose proof (Hhdr (S i) x Hx) as Hx'. rewrite Hx'. cbn [s_e with_block length].
       destruct (Nat.eqb_spec (S i) (S (length r))); lia.
+    + (* the blocks after the first are numbered from 2: none of them starts a message *)
+      apply Forall_forall. intros x Hin. apply In_nth_error in Hin as [i Hi]. pose proof (Hhdr (S i) x Hi) as Hx'.
+      unfold starts_message. rewrite Hx'. cbn [s_block with_block].
+      destruct (Z.eqb_spec (Z.of_nat (S i) + 1) 0); [lia|]. destruct (Z.eqb_spec (Z.of_nat (S i) + 1) 1); [lia|]. reflexivity.
+Qed.
+
+(* an attempt that was never completed does not disturb the next one: whatever blocks are still kept for the system bytes,
+   the blocks of a complete message are reassembled to exactly that message *)
+Theorem reassembly_after_abandoned h data old :
+  let bl := split_blocks data h true in
+  feed_k (Some old) bl = feed_k None bl.
+Proof.
+  cbv zeta. destruct (split_spec h data) as (_ & Hne & _ & Hhdr). destruct (split_blocks data h true) as [|b1 rest]; [cbn in Hne; lia|].
+  pose proof (Hhdr 0%nat b1 eq_refl) as H1. cbn [feed_k]. unfold step_k. unfold starts_message. rewrite H1. cbn [s_block with_block Z.of_nat Z.add Z.eqb Pos.eqb orb].
+  reflexivity.
 Qed.
 
 (* =====================  HSMS (C04)  ===================== *)
